@@ -613,6 +613,9 @@ namespace MEDDLY {
             //
             if (firstval && (firstval != 1)) {
                 for (unsigned i=0; i<un.getSize(); i++) {
+                    // leave zero edges alone: 0 / negative would store -0.0,
+                    // a different bit pattern (hash) for the same node
+                    if (0 == un.down(i)) continue;
                     un.edgeval(i).divide(firstval);
                 }
             }
